@@ -321,3 +321,98 @@ def _direct_atoms(x):
     elif k == 'ite':
         out.extend(x.parts[1:])
     return out
+
+
+# ---------------------------------------------------------------------- ndarray access canonicalisation
+
+STAR = T.sym('*')
+
+
+def AX(k):
+    return T.app('adt:ndarray::Axis', T.app('f:0', N(k)))
+
+
+def _spec(s):
+    if T.is_app(s, 'adt:std::ops::RangeFull'):
+        return STAR
+    if T.is_app(s, 'adt:std::ops::RangeTo'):
+        return T.app('to', s[2][0][2][0])
+    if T.is_app(s, 'adt:std::ops::RangeFrom'):
+        return T.app('from', s[2][0][2][0])
+    return s
+
+
+def _is_free(s):
+    return s is STAR or T.is_app(s, ('to', 'from', 'range'))
+
+
+def sel(base, *specs):
+    return _sel_compose(base, list(specs))
+
+
+def _sel_compose(x, specs):
+    if T.is_app(x, 'sel'):
+        base, old = x[2][0], list(x[2][1:])
+        free = [i for i, s in enumerate(old) if _is_free(s)]
+        if len(free) == len(specs) and all(old[i] is STAR or specs[j] is STAR for j, i in enumerate(free)):
+            for j, i in enumerate(free):
+                if old[i] is STAR:
+                    old[i] = specs[j]
+            return T.app('sel', base, *old)
+    return T.app('sel', x, *specs)
+
+
+def canon_nd(t, ranks=None):
+    """canonical element/sub-array selection terms: sel(base, spec_axis0, spec_axis1, ...)"""
+    ranks = ranks or {}
+    memo = {}
+
+    def rank_of(x):
+        if x in ranks:
+            return ranks[x]
+        if T.is_app(x, 'sel'):
+            return sum(1 for s in x[2][1:] if _is_free(s))
+        return None
+
+    def go(x):
+        if x in memo:
+            return memo[x]
+        k = x[0]
+        if k == 'app':
+            args = tuple(go(a) for a in x[2])
+            op = x[1]
+            r = None
+            if op == 'nd_slice' and len(args) == 2 and T.is_app(args[1], 'sliceinfo') and T.is_app(args[1][2][0], 'array'):
+                r = _sel_compose(args[0], [_spec(s) for s in args[1][2][0][2]])
+            elif op == 'column' and len(args) == 2:
+                r = _sel_compose(args[0], [STAR, args[1]])
+            elif op == 'row' and len(args) == 2:
+                r = _sel_compose(args[0], [args[1], STAR])
+            elif op == 'index_axis' and len(args) == 3 and T.is_app(args[1], 'adt:ndarray::Axis'):
+                rk = rank_of(args[0])
+                ax = args[1][2][0][2][0]
+                if rk is not None and T.is_num(ax) and ax[1] < rk:
+                    specs = [STAR] * rk
+                    specs[ax[1]] = args[2]
+                    r = _sel_compose(args[0], specs)
+            elif op == 'index' and len(args) == 2:
+                b, i = args
+                if i[0] == 'tuple' and rank_of(b) == len(i[1]):
+                    r = _sel_compose(b, list(i[1]))
+                elif rank_of(b) == 1 and i[0] != 'tuple':
+                    r = _sel_compose(b, [i])
+            elif op == 'len' and len(args) == 1 and T.is_app(args[0], 'sel'):
+                base, specs = args[0][2][0], args[0][2][1:]
+                free = [i for i, s in enumerate(specs) if _is_free(s)]
+                if len(free) == 1 and specs[free[0]] is STAR and not T.is_app(base, 'sel'):
+                    r = index_term(T.app('shape', base), N(free[0]))
+            if r is None:
+                r = T.app(op, *args)
+        elif k in ('num', 'sym'):
+            r = x
+        else:
+            r = T.subst(x, {a: go(a) for a in _direct_atoms(x)})
+        memo[x] = r
+        return r
+
+    return go(t)
